@@ -90,6 +90,7 @@ class Accounting:
         self.cb_calls: list[tuple] = []
         self.entries = 0
         self.max_concurrent_tensors = 0
+        self.lazy_live: dict[int, tuple] = {}  # id(token) -> (token, nbytes, loading thread)
 
     def _thread(self) -> int:
         s = self.sched
@@ -131,16 +132,27 @@ class Accounting:
             self.fail("budget-exceeded", f"held={self.held} > budget+largest={self.bound}")
         self.yield_(tag)
 
-    def exit(self, tensor, nbytes: int) -> None:
+    def exit(self, tensor, nbytes: int, log: bool = True) -> None:
         key = id(tensor)
         if key in self.inside:
             self.inside[key] -= 1
             if self.inside[key] <= 0:
                 del self.inside[key]
             self.held -= nbytes
+        self.lazy_live.pop(key, None)
         s = self.sched
-        if s is not None and s.active and not s.aborting:
+        if log and s is not None and s.active and not s.aborting:
             s.log("t-exit", tensor.sim_index, self._thread())
+
+    def lazy_loaded(self, token, nbytes: int) -> None:
+        self.lazy_live[id(token)] = (token, nbytes, self._thread())
+
+    def drop_pinned_by_traceback(self) -> None:
+        """The calling thread is unwinding with an exception: what it loaded is now referenced by the traceback only."""
+        me = self._thread()
+        for key, (token, nbytes, th) in list(self.lazy_live.items()):
+            if th == me:
+                self.exit(token, nbytes, log=False)
 
 
 class InjectedError(RuntimeError):
@@ -358,7 +370,8 @@ def build_tensor(spec: dict, idx: int, run_seed: int, acct: Accounting, ext_file
             if keep_alive:
                 acct.exit(token, len(payload))
             else:
-                weakref.finalize(result, acct.exit, token, len(payload))
+                acct.lazy_loaded(token, len(payload))
+                weakref.finalize(result, acct.exit, token, len(payload), False)
             return result
 
         t = ir.LazyTensor(thunk, dtype=dt(dtype), shape=ir.Shape(shape), cache=spec.get("cache", False), name=name)
